@@ -282,4 +282,26 @@ theorem isZ_false {x : K} (h : x ≠ 0) : FServo.isZ x = false := by
   rw [fzero_eq]
   rcases lt_or_gt_of_ne h with h' | h' <;> simp [h']
 
+/-! ### more DCMotor facts -/
+
+theorem duties_driveEvs_bounds (pins : Int × Int × Int) (eff : K) :
+    ∀ d ∈ dutiesL (driveEvs pins eff), 0 ≤ d ∧ d ≤ 255 := by
+  intro d hd
+  rw [dutiesL_driveEvs, List.mem_singleton] at hd
+  subst hd; exact dutyL_bounds _
+
+theorem backward_eq (v : Val K) :
+    FMotor.clampSpeed (-(if v.toF < (fzero : K) then -v.toF else v.toF)) =
+      Host.Motor.clamp (.flt (-(Host.Motor.fabs (Host.Motor.clamp v)))) := by
+  rw [clampSpeed_eq, clamp_eq, clamp_eq, C19.toF_flt, fzero_eq]
+  unfold Host.Motor.fabs
+  rw [zero_eq]
+  split_ifs <;> first | rfl | linarith | (exfalso; linarith)
+
+theorem host_clamp_clamp (v : Val K) : Host.Motor.clamp (.flt (Host.Motor.clamp v)) = Host.Motor.clamp v :=
+  clamp_id (clamp_bounds v).1 (clamp_bounds v).2
+
+theorem clampSpeed_clampSpeed (x : K) : FMotor.clampSpeed (FMotor.clampSpeed x) = FMotor.clampSpeed x :=
+  clampSpeed_id (clampSpeed_bounds x).1 (clampSpeed_bounds x).2
+
 end Reduino.Lemmas.C04
